@@ -33,6 +33,7 @@ func init() {
 			{ID: "C01-R2", Title: "wrapper soundness: the wrapped handler is dominated by a verification predicate", Decides: "(a) refusal, (b) a refusal runs none of the handler", Floor: 1, Run: c01r2},
 			{ID: "C01-R4", Title: "the controller key used for verification is read from storage at that moment (shared with C18-R4)", Decides: "a key that is no longer stored does not verify", Floor: 2, Run: c01r4},
 			{ID: "C01-R3", Title: "only pair-verify installs a cryptographer, on the request's own session; session keys derive from the remote address", Decides: "(c) verification is per connection", Floor: 8, Run: c01r3},
+			{ID: "C01-R5", Title: "events are written only to sessions subscribed through the authenticated route (shared with C10-R1)", Decides: "a refused / unverified connection is disclosed no value", Floor: 4, Run: c10r1},
 		},
 	})
 }
@@ -534,4 +535,5 @@ func c01r4(c *core.Ctx) {
 	n := len(core.FindCalls(f, func(i ssa.Instruction) bool { return core.IsInvoke(i, qDatabase, "EntityWithName") }))
 	c.Check(n > 0, "verify-looks-up-stored-key@"+fname(f), f.Pos(), "the controller's key is looked up with Database.EntityWithName at verification time", "pair-verify does not look the controller key up in the database")
 	c18r4(c)
+	databaseImplsReadStorage(c)
 }
